@@ -22,6 +22,8 @@ CLAUSES = {
     "nocasematch_folds_named_class": "with nocasematch a named class such as [[:upper:]] is case-folded by the regex engine; bash does not fold classes",
     "bracket_backslash_alnum": "backslash + letter/digit inside a bracket expression is passed to the regex crate verbatim (\\a, \\b, \\d ... or a compile error)",
     "bracket_regex_set_operator": "--, && or ~~ inside a bracket expression are set operators of the regex crate, not members",
+    "cond_extglob_always_on": "[[ s == p ]] must treat p as an extglob pattern even when shopt extglob is off (bash forces it inside [[ ]]); brush follows the option",
+    "named_class_ascii_only": "named classes such as [[:alpha:]] are ASCII-only in the regex crate; bash in a UTF-8 locale classifies multi-byte characters too",
     "regex_engine_repeated_plus_group": "the regex engine answers (X)+.*(X)+ (from +(X)*+(X), same X twice) as if one occurrence of X sufficed",
 }
 
@@ -224,6 +226,9 @@ def classify(ctx, cfg, p, s, b, o, rep, i, where, st):
     if sp is None:
         ctx.bucket("e2e_malformed_pattern_no_oracle")
         truth = None
+    elif sp != o and "C" in feats and any(ord(ch) > 127 for ch in s) and b == sp:
+        ctx.known_or_violation("named_class_ascii_only", "brush answers %s, bash answers %s: %s" % (b, o, CLAUSES["named_class_ascii_only"]), case)
+        return
     elif sp != o:
         ctx.oracle_mismatch += 1
         st["om"].setdefault((p, s), o)
@@ -247,8 +252,11 @@ def classify(ctx, cfg, p, s, b, o, rep, i, where, st):
     if truth is None or b == truth:
         return
     # the property fails on brush here, and the model predicted it (or does not cover it): which defect class?
+    sc = rep.get("spec_cfg")
     if "\n" in s and full == truth:
         cl = "newline_line_anchors"
+    elif sc is not None and (sc == "-" or sc[i] != sp):
+        cl = "cond_extglob_always_on"
     elif "K" in feats:
         cl = "bracket_leading_rbracket"
     elif "B" in feats:
@@ -307,9 +315,14 @@ def stage_E(ctx):
         mo = lib.run_drv_parallel(["C08 M %d %d %s %s" % (ext, nc, esc(p), " ".join(esc(s) for s in ss)) for p, ss in allp])
         # nocasematch does not apply to ${v##p} (neither in bash nor in brush)
         mo3 = mo if not nc else lib.run_drv_parallel(["C08 M %d 0 %s %s" % (ext, esc(p), " ".join(esc(s) for s in ss)) for p, ss in allp])
-        for (p, ss), b, o, m, m3 in zip(allp, bo, oo, mo, mo3):
+        # inside [[ ]] bash always matches with extglob on
+        mo2 = mo if ext else lib.run_drv_parallel(["C08 M 1 %d %s %s" % (nc, esc(p), " ".join(esc(s) for s in ss)) for p, ss in allp])
+        for (p, ss), b, o, m, m3, m2 in zip(allp, bo, oo, mo, mo3, mo2):
             rep = parse_report(m)
             rep3 = parse_report(m3)
+            rep2 = parse_report(m2)
+            if rep and rep2 and not ext:
+                rep2 = dict(rep, spec=rep2["spec"], spec_cfg=rep["spec"])
             bf, of = b.split(" "), o.split(" ")
             if rep is None or len(bf) != 3 or len(of) != 3 or any(len(x) != len(ss) for x in bf + of):
                 if st["nv"] < 12:
@@ -324,6 +337,8 @@ def stage_E(ctx):
                     ctx.evals += 1
                     if where == "${v##p}":
                         classify(ctx, (ext, 0), p, s, bx[i], ox[i], rep3, i, where, st)
+                    elif where == "[[ == ]]":
+                        classify(ctx, cfg, p, s, bx[i], ox[i], rep2, i, where, st)
                     else:
                         classify(ctx, cfg, p, s, bx[i], ox[i], rep, i, where, st)
             ctx.distinct.add(hash((cfg, p)))
